@@ -116,6 +116,13 @@ func max64(a, b int64) int64 {
 
 // rangeIndexOver reports whether idx is the index variable of a `range` loop over value/term x.
 func rangeIndexOver(idx ssa.Value, x ssa.Value) bool {
+	if bound, ok := facts.CountedLoopIndex(idx); ok {
+		if l := lenOf(bound); l != nil {
+			return l == x || facts.Term(l) == facts.Term(x)
+		}
+		_, isK := constInt(bound)
+		return isK
+	}
 	b, ok := idx.(*ssa.BinOp)
 	if !ok || b.Op != token.ADD {
 		return false
